@@ -1,6 +1,7 @@
 package main
 
 import (
+	"go/types"
 	"fmt"
 	"go/token"
 	"sort"
@@ -223,6 +224,22 @@ func c15(r *Run) {
 	// descriptors of failed / abandoned dials (shared with C14.R1, C14.R4)
 	r.borrow([]string{"C14.R1:", "C14.R4:established-is-returned"}, "C14.R", "C15.R3.dial", func() { c14(r) })
 
+	// a conversion that fails has adopted nothing: the caller's net.Listener is still the caller's and stays open
+	{
+		cv := w.MustFn("ConvertListener")
+		lnClose := w.MustFn("(*listener).Close")
+		var bad ssa.Instruction
+		forEachIns(cv, func(i ssa.Instruction) {
+			if isCallOrDefer(i, lnClose) {
+				bad = i
+			}
+			if cc := callCommon(i); cc != nil && cc.IsInvoke() && cc.Method.Name() == "Close" && namedTypeName(cc.Value.Type()) == "Listener" {
+				bad = i
+			}
+		})
+		r.ob("C15.R2:failed-conversion-closes-nothing-of-the-callers", "ConvertListener never closes the net.Listener it was handed (nor the wrapper that holds only that listener): when the conversion fails netpoll has adopted nothing, the listener is still the caller's", cv, bad, bad == nil, "no Close of the wrapped listener in ConvertListener", false)
+	}
+
 	// ---- R5 pool shrink / failed run close pollers ------------------------------------------------
 	{
 		run := w.MustFn("(*manager).Run")
@@ -254,6 +271,76 @@ func c15(r *Run) {
 			r.Visited += ss.Visited
 			r.ob("C15.R5:shrink-closes-surplus", "when the pool shrinks the surplus pollers are closed (their descriptors are released by their loops)", run, nil, reach != nil, "poll.Close() reachable in the shrink branch", true)
 		}
+		// a growth that fails half way closes the pollers it had already opened: they are only in the local slice, which
+		// the deferred m.Close() (it walks the old m.polls) cannot reach
+		{
+			openPoll := w.MustFn("openPoll")
+			var opens []ssa.Instruction
+			forEachIns(run, func(i ssa.Instruction) {
+				if isCall(i, openPoll) {
+					opens = append(opens, i)
+				}
+			})
+			isNewPollClose := func(i ssa.Instruction) bool {
+				if !isPollClose(i) {
+					return false
+				}
+				// the closed value is not an element of the installed pool m.polls
+				v := callCommon(i).Value
+				if u, ok := v.(*ssa.UnOp); ok {
+					if ia, ok := u.X.(*ssa.IndexAddr); ok {
+						if _, old := loadOfField(ia.X, "manager", "polls"); old {
+							return false
+						}
+					}
+				}
+				return true
+			}
+			// the loop heads that govern such a close count as "the clean-up was reached" (the loop may have nothing to do)
+			heads := map[ssa.Instruction]bool{}
+			for _, c := range findIns(run, isNewPollClose) {
+				body := c.Block()
+				reach := map[*ssa.BasicBlock]bool{}
+				work := []*ssa.BasicBlock{body}
+				for len(work) > 0 {
+					b := work[0]
+					work = work[1:]
+					for _, sc := range b.Succs {
+						if !reach[sc] {
+							reach[sc] = true
+							work = append(work, sc)
+						}
+					}
+				}
+				for _, b := range run.Blocks {
+					if len(b.Instrs) == 0 {
+						continue
+					}
+					if ifi, ok := b.Instrs[len(b.Instrs)-1].(*ssa.If); ok && b.Dominates(body) && reach[b] {
+						heads[ifi] = true
+					}
+				}
+			}
+			via := func(i ssa.Instruction) bool { return isNewPollClose(i) || heads[i] }
+			for _, op := range opens {
+				// the error test that follows the call in its block (err is a named result held in a cell: compare by position)
+				blk := op.Block()
+				ifi, _ := blk.Instrs[len(blk.Instrs)-1].(*ssa.If)
+				if ifi == nil {
+					continue
+				}
+				b, ok := ifi.Cond.(*ssa.BinOp)
+				if !ok || (b.Op != token.NEQ && b.Op != token.EQL) || !isNilConst(b.Y) || !types.Identical(b.X.Type(), types.Universe.Lookup("error").Type()) {
+					continue
+				}
+				failedBranch := b.Op == token.NEQ
+				starts := []Start{OnEdge(ifi, failedBranch)}
+				// only relevant when earlier iterations may have opened pollers: the call sits in a loop
+				r.mustPass("C15.R5:failed-growth-closes-new-pollers:"+siteKey(w, op), "when opening a poller fails while the pool grows, the pollers already opened by this call (held only in the local slice, out of reach of the deferred manager.Close) are closed before Run returns the error: their epoll and wake-up descriptors would otherwise stay open for the life of the process", run, op, starts, via, nil, nil, "Close() of the new pollers on every path from the failed open")
+			}
+		}
+		// ... and they are the right ones (C18.R3)
+		r.borrow([]string{"C18.R3:shrink-closes-surplus"}, "C18.R3", "C15.R5", func() { c18(r) })
 		mc := w.MustFn("(*manager).Close")
 		r.ob("C15.R5:manager-close-closes-all", "manager.Close closes every poller", mc, nil, len(findIns(mc, isPollClose)) > 0, "poll.Close() in a range over polls", false)
 	}
